@@ -2,12 +2,42 @@
 """Regenerates MANIFEST.json from the table below (kept in one place so that it is always valid)."""
 import json, subprocess, sys
 
-CLAIMED = {
- "C18": dict(
-   technique="custom SSA analyses: global-writer enumeration, per-path reaching definitions of setters by argument-count class, call-graph load scopes",
-   text="Structural necessary conditions, decided soundly from the type-checked SSA program for all option-call histories: no hidden writers of option state, each setter stores the documented value on every path per argument-count class, escaping switches mutually exclusive, derived variables recomputed, API groups never load options documented not to affect them. The behavioural whole (equality with a fresh process) is not decided.",
-   note="Trusted: go/types, go/ssa, the option documentation transcribed into the checker tables. Assumes no reflection/unsafe/linkname access to package variables (none in the module)."),
+CLAIMED = {}
+
+TECH = {
+ "C01": "influence sets (data + phi-selecting control dependence) of decoder map writes; must-pass-through of child insertion; nil/type-set/bounds obligations",
+ "C02": "shared-key/literal scan, predicate-atom comparison of the two key scans, escape taint over SSA with a gated-phi sanitiser model, escape-table evaluation, map-range order effects",
+ "C03": "loop path-cover of recursive encoder calls, error path search with phi renaming, escape taint",
+ "C04": "sequence-counter pairing per block, map-range order effects with sort-dominance, producer/consumer shape contract, nil/type-set/bounds obligations",
+ "C05": "escape taint, escape-table evaluation, path enumeration of the coupled setters, accumulator-coupling of validator input and returned bytes, error path search",
+ "C06": "backward slice of returned bytes for textual rewriting, option-to-SetEscapeHTML flow, wrapper composition, error path search",
+ "C07": "append/count pairing invariant, recursion-argument shape (keys[1:]), append dominance by len(keys)==0, alias lint for y[:0] reuse, compiler BCE report + zone analysis",
+ "C08": "loop path-cover of walkers, referrer classification of the sub-key map, influence sets of breadcrumbs, comparison-operand provenance, points-to receiver effects",
+ "C09": "loop path-cover with allowed skip conditions, leaf-append shape, wrapper composition and option forwarding, compiler BCE report",
+ "C10": "per-block pairing of replacements and counter increments, key/value operand provenance, flag-gated list store, recursion-argument shape",
+ "C11": "write enumeration through helpers, return-after-write reachability, operand provenance of the move, positional-termination test of the parent walker, type-set/bounds obligations",
+ "C12": "whole-program inclusion-based points-to analysis (receiver effects), error path search, nil/type-set/bounds obligations",
+ "C13": "io.Reader contract rules over Read call sites (dominance by n>0 / err!=nil), ByteReader provenance, constant buffer lengths, tee write dominance, handler stop-edge reachability",
+ "C14": "referrer classification of the cast flag, dominance of option loads by the flag, must-analysis of excluded NaN/Inf spellings, cast call-site coverage",
+ "C15": "Go compiler prove pass (check_bce) as bounds oracle + zone (DBM) analysis + structural rules; type-set dataflow for assertions; nil-guard analysis; error path search",
+ "C16": "map-range effect classification with sort dominance and sort-key provenance, writer/concat wrapper shapes, indent-flag dominance of whitespace writes, nondeterministic-callee scan, option load scopes",
+ "C17": "whole-program inclusion-based points-to analysis: per-root external objects, write-target queries for receivers and package state, result freshness",
+ "C18": "global-writer enumeration, per-path reaching definitions of setters by argument-count class, call-graph load scopes, dominance of cast-option loads",
+ "C19": "wrapper/concat/file-loop shapes, gob type agreement and registration scan, result freshness by points-to, error path search",
+ "C20": "wrapper composition tables checked on resolved callees with receiver chaining and err-dominance, option forwarding, influence sets of the re-implemented walkers, handler stop-edge reachability",
 }
+
+import json as _json
+_texts = {}
+for _l in open('/verif/properties.jsonl'):
+    _p = _json.loads(_l)
+    _texts[_p['id']] = _p['title']
+
+for _pid, _t in TECH.items():
+    CLAIMED[_pid] = dict(
+        technique="static analysis over go/types + go/ssa: " + _t,
+        text="Structural necessary conditions of '%s', decided soundly from /repo's type-checked SSA program on every run (all inputs / configurations / schedules, no execution). The exact clauses decided and the clauses NOT decided are listed in DESIGN.md section 4 under %s and in the evidence file's coverage.explanation. The behavioural whole of the property is not decided." % (_texts[_pid], _pid),
+        note="Trusted: go/types, go/ssa (x/tools v0.29.0), the Go 1.23.5 compiler's prove pass where bounds are concerned, the standard-library effect/contract model tables in the checker, documented semantics transcribed into the checker tables. Assumptions are listed per obligation in the evidence file (status 'assumed').")
 
 NOT_YET = "rule families for this property are not built yet (see DESIGN.md section 4); not claimed through a weaker proxy"
 
